@@ -94,6 +94,7 @@ def run(name, pids, scratch=False):
                 print('    ' + x[:260])
     finally:
         rc, out = sh(f'git -C {target} checkout -- .')
+        sh(f'git -C {ROOT} checkout -- coq/Gen')   # the translator's output for the changed tree must not stay behind (it is regenerated on every run anyway)
         if scratch:
             sh(f'git -C {REPO} worktree remove --force {target}')
             ENV.pop('VERIF_REPO', None)
